@@ -66,7 +66,7 @@ def opEncDataCompiled (st : DrvState) (j : Json) : J (DrvState × Json) := do
       | .ok (outs, bits) => pure (st, jobj [("bits", jstr (bitsToStr bits)), ("subsets", jarr (outs.map subsetToJson))])
 
 /-- the cache on abstract keys (naturals); the compiled value of key `k` is `k` itself -/
-def opCache (st : DrvState) (j : Json) : J (DrvState × Json) := do
+def opCompiledCache (st : DrvState) (j : Json) : J (DrvState × Json) := do
   let keys ← (← asList (← fld j "keys")).mapM asNat
   let cmax ← asNat (← fld j "max")
   let mut c : Cache Nat Nat := {}
